@@ -203,7 +203,8 @@ def snapshot(root):
 
 def src_files(root, pkg):
     d = os.path.join(root, pkg)
-    return sorted(f for f in os.listdir(d) if f.endswith(".go") and f != "reg.go" and not f.endswith("_gen.go"))
+    return sorted(f for f in os.listdir(d) if f.endswith(".go") and f != "reg.go" and not f.endswith("_gen.go")
+                  and not f.endswith("_gen_test.go") and not f.endswith("_out.go"))
 
 
 def gen_name(f):
@@ -262,3 +263,83 @@ def small_programs(c, nflow, npar, max_tasks=3, max_insts=4, seed_off=900):
         if 1 <= len(render.insts(p)) <= max_insts:
             pars.append(p)
     return flows, pars
+
+
+# ------------------------------------------------------------------ the tool as a file-system state machine (GenPipeline.tla)
+class GenLog:
+    """Records invocations of the real cff as events for spec/GenPipeline.tla (via GenTrace.tla)."""
+
+    def __init__(self, c, name):
+        self.c, self.name, self.events = c, name, []
+
+    @staticmethod
+    def nhash(path):
+        with open(path, "rb") as f:
+            b = f.read()
+        return hashlib.sha256(b.replace(os.path.basename(path).encode(), b"@OUT@")).hexdigest()[:16]
+
+    def run(self, cff, root, pkg, mode="base", extra=(), files=None, alt=None, expectok=True, typecheck=False, scan_tool=None, timeout=600):
+        """One invocation.  files: None = the whole package, else the list of source files given with -file;
+        alt: {file: output path relative to the package} for -file=IN=OUT.  Returns the event."""
+        d = os.path.join(root, pkg)
+        srcs = src_files(root, pkg)
+        selected = list(files) if files is not None else srcs
+        alt = alt or {}
+        outputs = [os.path.join(pkg, alt.get(f, gen_name(f))) for f in selected]
+        for o in outputs:                      # fresh run: the outputs do not exist beforehand
+            if os.path.exists(os.path.join(root, o)):
+                os.remove(os.path.join(root, o))
+        before = snapshot(root)
+        cmd = [cff, "-quiet"] + (["-genmode", mode] if mode != "base" else []) + list(extra)
+        if files is not None:
+            cmd += ["-file=%s%s" % (f, ("=" + os.path.join(d, alt[f])) if f in alt else "") for f in files]
+        cmd.append("vgen/" + pkg)
+        r = subprocess.run(cmd, cwd=root, env=GOENV, capture_output=True, text=True, timeout=timeout)
+        text = r.stdout + r.stderr
+        after = snapshot(root)
+        written = sorted(p for p in after if before.get(p) != after[p])
+        deleted = sorted(p for p in before if p not in after)
+        diag = sorted({os.path.basename(m.group(1)) for m in re.finditer(r"([A-Za-z0-9_./-]+\.go):\d+:\d+: ", text)})
+        ev = dict(ev="run", id=len(self.events) + 1, pkg=pkg, mode=mode, flags=" ".join(extra), selected=selected, outputs=outputs,
+                  expectok=expectok, rc=r.returncode, crashed=("panic:" in text and "goroutine " in text), diagfiles=diag,
+                  written=[[p, self.nhash(os.path.join(root, p))] for p in written], deleted=deleted, fresh=True,
+                  typechecks="skipped", surviving=0, stderr=text[-600:])
+        if r.returncode == 0 and typecheck:
+            ok, err = typecheck_pkg(self.c, root, pkg)
+            ev["typechecks"] = "yes" if ok else "no"
+            if not ok:
+                ev["stderr"] = err[-900:]
+        if r.returncode == 0 and scan_tool:
+            ev["surviving"] = sum(1 for f in gendiff(self.c, scan_tool, root, pkg) if f["prop"] == "C13")
+        self.events.append(ev)
+        return ev
+
+    def judge(self, label=""):
+        """Feeds the events to the monitor; files what it recorded.  Returns number of runs."""
+        c = self.c
+        if not self.events:
+            return 0
+        path = os.path.join(c.scratch, "gen-%s.ndjson" % self.name)
+        with open(path, "w") as f:
+            for e in self.events:
+                f.write(json.dumps({k: v for k, v in e.items() if k != "stderr"}) + "\n")
+        cfg = 'CONSTANTS TraceFile = "%s"\nSPECIFICATION TSpec\nPOSTCONDITION Consumed\nCHECK_DEADLOCK FALSE\n' % path
+        r = c.tlc("GenTrace", cfg, "gen-" + self.name, workers=1, timeout=3000)
+        m = re.search(r'<<"TRACE-DONE", (\d+), (\d+), (\d+), (".*")>>', r["output"])
+        if not m or int(m.group(1)) != len(self.events):
+            raise Inconclusive("generator trace %s not consumed completely" % self.name)
+        byid = {e["id"]: e for e in self.events}
+        for rid, prop, what in json.loads(json.loads(m.group(4))):
+            e = byid.get(rid, {})
+            c.violation(prop, "%s (%s package %s, mode %s %s, files %s)%s" % (what, label, e.get("pkg"), e.get("mode"), e.get("flags"),
+                        (e.get("selected") or [])[:3], ("\n" + e.get("stderr", "")[-700:]) if prop in ("C13", "C14") else ""),
+                        dict(kind="gen-run", event={k: v for k, v in e.items() if k not in ("written",)}))
+        c.cov["traces_validated_against_impl"] += len(self.events)
+        c.cov["generator_functions_learnt"] = c.cov.get("generator_functions_learnt", 0) + int(m.group(3))
+        return len(self.events)
+
+
+def typecheck_pkg(c, root, pkg):
+    """Type-checks one package of the rendered module without the cff tag."""
+    r = subprocess.run(["go", "build", "./%s/" % pkg], cwd=root, env=GOENV, capture_output=True, text=True, timeout=900)
+    return r.returncode == 0, (r.stdout + r.stderr)[-3000:]
